@@ -105,7 +105,10 @@ def run(check, pool, Task):
                     first = c07.real_c(m['p'], m['n'], 0)
                     last = c07.real_c(m['p'], m['n'], (1 << (m['n'] * m['p'])) - 1)
                     bad = any(first) or (m['n'] == 2 and last != [(1 << m['p']) - 1, 0])
-                    wit = {'relation': 'endpoints', 'p': m['p'], 'n': m['n'], 'first': first, 'last': last}
+                    d_first = c07.real_d(m['p'], [0] * m['n'])
+                    d_last = c07.real_d(m['p'], [(1 << m['p']) - 1] + [0] * (m['n'] - 1)) if m['n'] * m['p'] <= 62 else None
+                    bad = bad or d_first != 0 or (m['n'] in (1, 2) and d_last is not None and d_last != (1 << (m['n'] * m['p'])) - 1)
+                    wit = {'relation': 'endpoints', 'p': m['p'], 'n': m['n'], 'first': first, 'last': last, 'd_first': d_first, 'd_last': d_last}
             except Exception as e:  # noqa: BLE001
                 bad, wit = False, {'exception': repr(e)}
             if bad:
